@@ -59,7 +59,7 @@ fn plan(tier: Tier) -> Plan {
 			native_cap: Duration::from_secs(25),
 			native_min_time: Duration::from_secs(0),
 			miri_random: 250,
-			miri_limit: Duration::from_secs(32),
+			miri_limit: Duration::from_secs(40),
 			asan_secs: 0,
 		},
 		Tier::Thorough => Plan {
@@ -92,7 +92,7 @@ fn spec_for(prop: &str, tier: Tier) -> Option<Spec> {
 		.require("start_64", 10_000)
 		.require("start_unaligned", 1_000_000)
 		.require("ib_16_17", 1_000_000)
-		.require("miri_cases", tier.pick(2_500, 40_000))
+		.require("miri_cases", tier.pick(2_400, 40_000))
 		.require("miri_children_ok", 8)
 		.budget(60, 840);
 	if tier == Tier::Thorough {
